@@ -232,6 +232,22 @@ class _Stmts(ast.NodeTransformer):
                                   lambda v: ast.copy_location(ast.Assign(targets=copy.deepcopy(node.targets), value=v), node))
             if r is not None:
                 return r
+        # N3b  a = self.x = E   ->   self.x = E ; a = self.x     (one evaluation of E; both names hold the object)
+        if len(node.targets) == 2 and not isinstance(node.value, (ast.Name, ast.Constant)) and \
+                not _is_path(node.value):
+            names_ = [t for t in node.targets if isinstance(t, ast.Name)]
+            paths_ = [t for t in node.targets if isinstance(t, ast.Attribute) and _is_path(t)]
+            if len(names_) == 1 and len(paths_) == 1 and names_[0].id not in _names(node.value) and \
+                    names_[0].id not in _names(paths_[0]):
+                self.changed = True
+                first = ast.copy_location(ast.Assign(targets=[paths_[0]], value=node.value), node)
+                load = copy.deepcopy(paths_[0])
+                for x in ast.walk(load):
+                    if hasattr(x, 'ctx'):
+                        x.ctx = ast.Load()
+                second = ast.copy_location(ast.Assign(targets=[names_[0]], value=load), node)
+                second.after_store = True
+                return [first, second]
         # N3
         if len(node.targets) > 1 and isinstance(node.value, (ast.Name, ast.Constant)) or \
                 (len(node.targets) > 1 and _is_path(node.value) and
@@ -578,8 +594,15 @@ def _writes_all_before(fn, assign, attrs):
     inside a loop (so no store can run between the definition and a later use)"""
     if _in_loop(fn, assign):
         return False
-    line = getattr(assign, 'lineno', None)
-    if line is None:
+    order = {}
+
+    def rec(n):
+        order[id(n)] = len(order)
+        for c in ast.iter_child_nodes(n):
+            rec(c)
+    rec(fn)
+    pos = order.get(id(assign))
+    if pos is None:
         return False
     for n in _walk_scope(fn):
         tgt = None
@@ -587,7 +610,7 @@ def _writes_all_before(fn, assign, attrs):
             tgt = n
         elif isinstance(n, ast.AugAssign) and isinstance(n.target, ast.Attribute) and n.target.attr in attrs:
             tgt = n.target
-        if tgt is not None and not (getattr(tgt, 'lineno', 10 ** 9) < line):
+        if tgt is not None and not (order.get(id(tgt), 10 ** 9) < pos):
             return False
     return True
 
@@ -744,6 +767,9 @@ def normalize_function(fn, resolver=None, list_attrs=frozenset(), consts=None, c
                     continue                      # a local bound exactly once
                 if _only_loop_bound(new, r) and _bound_by_enclosing_loop(new, r, asg):
                     continue                      # the loop variable of a loop around the definition
+                if r != name and not _in_loop(new, asg) and _dominates_uses(new, asg, name) and \
+                        not _rebound_between(new, asg, name, {r}):
+                    continue                      # bound several times, but not between this definition and its uses
                 ok = False
             if not ok:
                 continue
